@@ -9,6 +9,7 @@ package metainfogen_test
 import (
 	"bytes"
 	"fmt"
+	"hash/crc32"
 	"math"
 	"sort"
 	"strconv"
@@ -87,7 +88,7 @@ func c02pCRCs(data []byte, pl int64) string {
 		if int64(end-off) > pl {
 			end = off + int(pl)
 		}
-		xs = append(xs, strconv.FormatUint(uint64(core.PieceSum(data[off:end])), 10))
+		xs = append(xs, strconv.FormatUint(uint64(crc32.ChecksumIEEE(data[off:end])), 10))
 		off = end
 	}
 	return verifh.List(xs)
